@@ -8,9 +8,9 @@ def limiter_global_locks : Nat := 1
 def mutators_without_write_lock : List Nat := []
 def seg_counts : List Nat := [16, 16, 16, 16, 16, 32, 64, 128, 256, 256, 256]
 def segmap_count_atomic : Bool := true
-def segmap_global_locks : Nat := 1
+def segmap_global_locks : Nat := 0
 def segment_locks : Nat := 1
-def setwithcap_defers : Nat := 1
+def setwithcap_defers : Nat := 0
 def setwithcap_max_lock_depth : Nat := 1
 
 end SdnsVerif.Gen.C16
